@@ -14,6 +14,10 @@ CHECKS = {
    technique="static analysis: exhaustiveness of the metric match against the enum + per-arm decision tables extracted from MIR (A6), origin checks of the observed operands, path rules for the Outbound early return and the block gate",
    text="Decides, for each of the five system metric arms, that the extracted decision formula equals the statement's (>= for QPS/concurrency/RT; > plus the BBR side condition for load/CPU) on every ordering of (observed, threshold) x strategy x bbr_ok, that the BBR capacity test is !(n > 1 && n > max_avg(Complete)*min_rt/1000) on the inbound node, that Outbound entries return before any rule is read, and that the rejection is SystemFlow with rule and observed value. It does not decide that the observed statistics equal the traffic history.",
    note="Comparison atoms identified by operand origin slices; NaN ignored; injected load/CPU readings trusted."),
+ "C13": dict(
+   technique="static analysis: CFG rules over SlotChain::add_*/entry/exit and EntryBuilder::build (push-then-sort on one field keyed by order(), phase reachability, loop-exit analysis, dominance of the verdict store, decision tables for the notification and Blocked->Err mapping)",
+   text="Decides on every path of the chain's own code: each add_* sorts the vector it pushed to by order(), and that vector is the one iterated for the role; the three phases cannot interleave; each loop walks the whole vector front to back (check loop may stop only after a block); the verdict is reset before checking and overwritten only by a slot's own blocked return; each stat slot gets exactly the notification matching the verdict; on_completed runs iff not blocked; build maps Blocked to Err after exiting. This covers all chain shapes and slot results at once because the code under analysis is the chain, not the slots.",
+   note="Trusts std sort_by_key (ascending) and slice::Iter order; custom slots that overwrite the context verdict themselves are outside the statement's quantifier."),
 }
 NOT_APPLICABLE = {("C%02d" % i): PENDING for i in range(1, 21) if ("C%02d" % i) not in CHECKS}
 NOT_APPLICABLE["C08"] = "numerical trajectory over runtime values (ramp shape, 2p+2 s bound); no structural clause is a necessary condition of the stated bounds (DESIGN.md §3 C08)"
